@@ -145,6 +145,15 @@ def run_case(case):
                     snapshot(d, f'paused@{case["pos"]}')
                     if d.quiesce() and d.p.paused and not d.p.has_terminated():
                         snapshot(d, f'pausedq@{case["pos"]}')
+                    if case['pos'] % 2 == 0 and not d.p.has_terminated():
+                        # terminated while paused, saved after the transition has completed (not from inside a hook)
+                        try:
+                            d.p.kill('killed while paused')
+                        except Exception as e:  # noqa  (kill is C04's business)
+                            bump('kill-raised:' + type(e).__name__)
+                        d.quiesce()
+                        if d.p.has_terminated():
+                            snapshot(d, f'killedpaused@{case["pos"]}')
         d.abandon()
 
         # load every copy in a fresh event loop, save again, compare
